@@ -219,8 +219,14 @@ def main(argv=None):
 
     # optional cross-case analysis (differential properties)
     extra = []
+    extra_counters = {}
     if hasattr(mod, "finalize"):
-        extra = mod.finalize([r for (_, r, _) in results if r is not None], tier) or []
+        fin = mod.finalize([r for (_, r, _) in results if r is not None and r.get("status") != "harness_error"], tier) or []
+        if isinstance(fin, dict):
+            extra = fin.get("violations", [])
+            extra_counters = fin.get("counters", {})
+        else:
+            extra = fin
 
     known = load_known(prop)
     violations = []  # (spec, violation dict)
@@ -253,6 +259,8 @@ def main(argv=None):
             samples.append({"case": spec["id"], "spec": {k: v for k, v in spec.items() if k != "id"}, "observed": res["sample"]})
         for v in res.get("violations") or []:
             violations.append((spec, v))
+    for k, v in extra_counters.items():
+        counters[k] = counters.get(k, 0) + v
     for v in extra:
         violations.append((v.get("spec") or {"id": v.get("case", prop + "-finalize")}, v))
 
